@@ -164,6 +164,10 @@ func engineRule(g *Gen) string {
 		// shortcut of length exactly 5 / below 5 / any-URL shortcuts
 		return Pick(g, []string{"abcde", "abcd$domain=example.org", "||ab^$domain=test.com", "http://*ad$domain=example.org", "|https://$domain=example.org", "ws://x", "|ws://*$domain=a.org", "https://", "|http://ab", "http*banner"})
 	case 2, 3:
+		if g.Chance(1, 4) {
+			// $domain values that are public suffixes themselves (private section, wildcard entries) or one label
+			return Pick(g, []string{"ad", "*", "/x", "^"}) + "$domain=" + joinVals(g, []string{"github.io", "kawasaki.jp", "co.uk", "blogspot.com", "ck", "org", "localhost", "city.kawasaki.jp"}, 1, 2, 0, "|")
+		}
 		// domains table
 		doms := append(append([]string{}, hostPool...), wildcardDomains...)
 		return Pick(g, []string{"ad", "*", "/x", "||", "^"}) + "$domain=" + joinVals(g, doms, 1, 3, 20, "|") + Pick(g, []string{"", ",script", ",third-party"})
@@ -211,6 +215,10 @@ func engineURLReq(g *Gen, lines []string) Req {
 		p := collidingSeqTexts[g.Intn(min(3, len(collidingSeqTexts)))]
 		t := p[g.Intn(2)]
 		r.URL = "https://example.org" + t[:4] + Pick(g, []string{"/banner.js", "", "?x=1"})
+	}
+	if r.Kind == "url" && g.Chance(1, 8) {
+		// sources below public suffixes of every kind
+		r.Source = "https://" + Pick(g, []string{"user.github.io", "a.b.github.io", "x.city.kawasaki.jp", "www.kawasaki.jp", "foo.co.uk", "a.blogspot.com", "www.ck", "foo.bar.ck", "example.org", "localhost"}) + "/page"
 	}
 	if r.Kind == "url" && g.Chance(1, 10) {
 		// the only occurrence of a window is at the very end of the URL
@@ -338,6 +346,10 @@ func init() {
 			return "||" + p[g.Intn(2)] + "^"
 		case 6:
 			// browser-only modifiers: ignored by the DNS engine
+			if g.Chance(1, 3) {
+				// $important / $badfilter together with a browser-only modifier: still not a DNS rule
+				return Pick(g, []string{"@@||", "@@||", "||"}) + Pick(g, hostsNames[:6]) + "^$" + Pick(g, []string{"document,important", "popup,important", "elemhide,important", "important,generichide", "badfilter,popup", "urlblock,badfilter", "important,jsinject", "extension,important", "content,badfilter", "important,popup,badfilter"})
+			}
 			return "||" + Pick(g, hostsNames[:6]) + "^$" + Pick(g, []string{"script", "domain=example.org", "third-party", "~third-party", "match-case", "script,~image", "popup", "important,script"})
 		case 7:
 			return Pick(g, []string{"||", "@@||"}) + Pick(g, hostsNames[:6]) + "^" + Pick(g, []string{"", "$important", "$badfilter", "$dnstype=A", "$client=Mom", "$ctag=device_pc", "$dnsrewrite=1.2.3.4", "$denyallow=a.example.org", "$important,badfilter"})
@@ -501,6 +513,19 @@ func init() {
 			}
 			for i := 0; i < n; i++ {
 				ls, _ := genStorage(g, cosLine, 14)
+				if g.Chance(1, 8) {
+					// several rules under one domain key, the earlier ones excepted on the domain itself but not on a
+					// subdomain; the hostnames are asked parent first, on one engine (answers must not depend on earlier ones)
+					d := Pick(g, []string{"example.org", "shop.example.org", "example.com"})
+					sub := Pick(g, []string{"sub.", "www.", "a."}) + d
+					extra := d + "##.first\n" + d + "##.second\n" + d + ",~" + sub + "#@#.first\n"
+					if g.Bool() {
+						extra += d + "##.third\n" + d + ",~" + sub + "#@#.second\n"
+					}
+					ls[0].content = extra + ls[0].content
+					emit(encodeStorage(ls) + "\t" + encList(append([]string{d, sub, d, "x." + sub}, cosHosts...)))
+					continue
+				}
 				emit(encodeStorage(ls) + "\t" + encList(cosHosts))
 			}
 		},
